@@ -62,8 +62,8 @@ MANIFEST = dict(
     'optimality is proved against competitors that give the outside good a positive amount; translated variant: statements about the inverse hold below the overflow guard '
     'MAX_EXP_ARGUMENT; the lru_cache of the numeric pieces is not modelled (finding F-C18-4 is about it); the estimation side (transformed_utility, determinant entries, '
     'loglikelihood, estimate_parameters) is outside the property; IEEE rounding not modelled (tolerances stated); the iteration order of a CPython set is read from the real object. '
-    'Known findings: F-C18-1, F-C18-2 (fixed in /repo); F-C18-3 (bisection returns the consumptions at the midpoint of the bracket it has just updated when the budget criterion '
-    'stops it) and F-C18-4 (values cached before estimation_results is set are kept) are listed with proposed fixes.',
+    'Findings: F-C18-1, F-C18-2 (fixed in /repo); F-C18-3 (bisection returns the consumptions at the midpoint of the bracket it has just updated when the budget criterion '
+    'stops it) and F-C18-4 (values cached before estimation_results is set are kept) were found by this check and are repaired in /repo (7ff3d5b, c10d1db).',
 )
 TRUSTED = [
     'scipy SLSQP (reference optimiser, may be inexact)',
